@@ -196,7 +196,8 @@ def check(ctx):
                 loops.append((sb2, bb))
     skipped = False
     for sb2, some_t in loops:
-        if comb[0][0] not in j.reachable(some_t):
+        # only the loop that contains the combination (not an earlier loop that merely precedes it)
+        if comb[0][0] not in j.reachable(some_t, removed_blocks=[sb2]) or sb2 not in j.reachable(comb[0][0]):
             continue
         reach_wo = j.reachable(some_t, removed_blocks=[comb[0][0]])
         rets = [i for i in j.normal_blocks() if (j.term(i) or {}).get('k') == 'return']
